@@ -1,10 +1,10 @@
 #!/bin/bash
-# usage: run_benign_batch.sh <snapshot-dir> <target-dir> <ID>...   benign (property-preserving) changes: checks must stay silent
+# usage: run_benign_batch.sh <snapshot-dir> <target-dir> <ID>...   (env BEN_PREFIX, default ben)   benign (property-preserving) changes: checks must stay silent
 SNAP="$1"; TGT="$2"; shift 2
 export VERIF_NO_FUZZ=1
 for id in "$@"; do
-  WT=/tmp/ben-$id
-  for diff in /tmp/ben-$id-out/change*.diff; do
+  WT=/tmp/${BEN_PREFIX:-ben}-$id
+  for diff in /tmp/${BEN_PREFIX:-ben}-$id-out/change*.diff; do
     k=$(basename "$diff" .diff); k=${k#change}
     echo "#### benign $id change $k"
     (cd $WT && git checkout -q -- . && git apply "$diff") || { echo "APPLY FAILED"; continue; }
